@@ -49,6 +49,11 @@ func ExtractInstanceTags(m []byte) (ours, theirs uint32, ok bool) {
 			return 0, 0, false
 		}
 
+		// only version 3 messages carry instance tags
+		if _, version, _ := ExtractShort(msg); version != (otrV3{}).protocolVersion() {
+			return 0, 0, false
+		}
+
 		rest, senderInstanceTag, _ := ExtractWord(msg[messageHeaderPrefix:])
 		_, receiverInstanceTag, _ := ExtractWord(rest)
 
